@@ -64,6 +64,12 @@ def t_derive_add(f):
     return [Derive(**{fresh("x"): C(i[0]) + 1})]
 
 
+def t_derive_shadow(f):
+    """a derived column that takes the name of an existing column"""
+    i = [n for n in f.ints() if "." not in n]; need(len(i) >= 2)
+    return [Derive(**{i[0]: C(i[1]) + 1})]
+
+
 def t_derive_mix(f):
     i = f.ints(); need(len(i) >= 2)
     return [Derive(**{fresh("y"): C(i[0]) * 2 - C(i[1])})]
@@ -514,6 +520,21 @@ def targeted_setop_family():
     return out
 
 
+def targeted_shadow_family():
+    """name shadowing: a derived column that takes the name of an existing column (which stays in the frame, unnamed), on
+    relations of known columns, followed by every kind of transform"""
+    out = []
+    for before in ((), ("filter_gt",), ("sort_asc",), ("sort_desc2",), ("group_take",), ("take_n",), ("join_inner",)):
+        for after in ((), ("filter_gt",), ("sort_asc",), ("select_2",), ("take_n",), ("group_agg",), ("agg",), ("derive_add",), ("join_left",), ("win_sum",)):
+            seq = before + ("derive_shadow",) + after
+            if before == ("take_n",):
+                seq = ("sort_asc",) + seq
+            pipe = build("sel", seq, dict(ALPHABET, derive_shadow=t_derive_shadow))
+            if pipe is not None:
+                out.append(("sel:" + ">".join(seq), Prog(pipe)))
+    return out
+
+
 def family_c01(tier, seed):
     """quick: all pipelines of <=2 templates on both heads + a seed-rotated slice of length 3;
     thorough: all of length <=3 on the explicit-column head, <=2 on the wildcard head, plus a slice of length 4"""
@@ -530,7 +551,7 @@ def family_c01(tier, seed):
         rr.shuffle(l2)
         rr.shuffle(l3)
         l2, l3 = l2[:300], l3[:150]
-    out += l2 + l3 + targeted_let_family() + targeted_distinct_family() + targeted_group_take_family() + targeted_takes_family() + targeted_setop_family()
+    out += l2 + l3 + targeted_let_family() + targeted_distinct_family() + targeted_group_take_family() + targeted_takes_family() + targeted_setop_family() + targeted_shadow_family()
     out += list(enumerate_family(1 if tier == "quick" else 2, heads=("lit",)))
     out += list(enumerate_family(1 if tier == "quick" else 2, heads=("alias", "alias_wild")))
     if tier == "quick":
@@ -1071,6 +1092,16 @@ def family_c05(tier, seed):
         ("p:star-known-two", [From("t"), Select("a", "b", "c"), Join([From("u"), Select("a", "b")], "==a"), Select("t.b", Star("u"), Star("t"))]),
         ("p:star-sort-take", [From("t"), Derive(y=b + 1), Select("b", "y", Star("t")), Sort("y"), Take(1)]),
         ("p:star-filter-split", [From("t"), Derive(y=b + 1), Select("c", "y", Star("t")), Filter(C("y") > 0), Derive(z=C("y") * 2)]),
+        ("p:shadow-derive", [From("t"), Select("a", "b"), Derive(a=b + 1)]),
+        ("p:shadow-derive-self", [From("t"), Select("a", "b"), Derive(a=a + 1)]),
+        ("p:shadow-derive-select", [From("t"), Select("a", "b"), Derive(a=b + 1), Select("a", "b")]),
+        ("p:shadow-derive-filter", [From("t"), Select("a", "b"), Derive(a=a + 1), Filter(C("a") > 1)]),
+        ("p:shadow-derive-sort-take", [From("t"), Select("a", "b"), Derive(a=b + 1), Sort("a"), Take(1)]),
+        ("p:shadow-join-known", [From("t"), Select("a", "b"), Join([From("u"), Select("a", "b")], "==a"), Derive(a=C("t.b") + C("u.b"))]),
+        ("p:shadow-join-known-b", [From("t"), Select("a", "b"), Join([From("u"), Select("a", "b")], "==a"), Derive(b=C("t.a") + 1), Select("b", "t.a")]),
+        ("p:shadow-join-known-two", [From("t"), Select("a", "b"), Join([From("u"), Select("a", "b")], "==a"), Derive(a=C("t.b") + 1, b=C("u.a") + 2)]),
+        ("p:shadow-twice", [From("t"), Select("a", "b"), Derive(a=b + 1), Derive(a=C("a") * 2)]),
+        ("p:shadow-group", [From("t"), Select("a", "b", "c"), Group(["a"], Sort("c"), Derive(b=Fn("row_number", C("this"))))]),
         ("p:wild-excl", [From("t"), SelectNot("b")]),
         ("p:wild-excl2", [From("t"), SelectNot("a", "c")]),
         ("p:join-wild-excl-left", [From("t"), J(), SelectNot("t.b")]),
